@@ -159,6 +159,7 @@ class UnitConversions:
             self.fat_units,
             self.protein_units,
         ] = self.get_units_from_list_to_element()
+        self.units = [self.kcals_units, self.fat_units, self.protein_units]
 
     def get_units_from_element_to_list(self):
         """
@@ -191,6 +192,7 @@ class UnitConversions:
             self.fat_units,
             self.protein_units,
         ] = self.get_units_from_element_to_list()
+        self.units = [self.kcals_units, self.fat_units, self.protein_units]
 
     def get_units(self):
         """
